@@ -679,10 +679,20 @@ func (x *c11runner) slice(ts []string, c c11cfg) (o c11out) {
 func (x *c11runner) batch(c c11cfg, ts []string) {
 	r := x.r
 	cs := c11case{Kind: "batch", Cfg: c, T: ts}
+	nreq := 0
 	for _, t := range ts {
-		if _, _, ok := c11ref(t, c); !ok {
+		req, _, ok := c11ref(t, c)
+		if !ok {
 			return
 		}
+		nreq += len(req)
+	}
+	// vacuity counters: what the harness submits (batches, amplicons the brute-force reference requires on
+	// their templates), counted before the implementation runs
+	r.Count("batches", 1)
+	if c.FErr != c.RErr {
+		r.Count("batches_asymmetric_budgets", 1)
+		r.Count("batch_amplicons_required_asymmetric_budgets", int64(nreq))
 	}
 	var alone []c11amp
 	per := make([][]c11amp, len(ts))
@@ -699,10 +709,8 @@ func (x *c11runner) batch(c c11cfg, ts []string) {
 	got := x.slice(ts, c)
 	r.Eval(1)
 	r.Trans(int64(len(ts)))
-	r.Count("batches", 1)
 	r.Count("batch_amplicons", int64(len(alone)))
 	if c.FErr != c.RErr {
-		r.Count("batches_asymmetric_budgets", 1)
 		r.Count("batch_amplicons_asymmetric_budgets", int64(len(alone)))
 	}
 	base := "PCRSlice/" + c.c11topo()
@@ -958,7 +966,7 @@ func TestVerifC11(t *testing.T) {
 	r.RequireNonVacuous("amplicons_required")
 	r.RequireNonVacuous("batches")
 	r.RequireNonVacuous("long_amplicons_required")
-	r.RequireNonVacuous("batch_amplicons_asymmetric_budgets")
+	r.RequireNonVacuous("batch_amplicons_required_asymmetric_budgets")
 
 	k := 0
 	cpu0 := c11cpu()
